@@ -159,6 +159,13 @@ def malformed_reqs(uni):
             out.append(([{key: [v]}], [{"ids": []}]))
             out.append(([{key: [v], "kinds": [1, 7]}], [{"ids": []}]))
             out.append(([{key: [v, "ee" * 32]}], [{"ids": []}]))
+    # an id list that mixes a stored id with an over-long one, beside a condition the stored event fails: the other conditions
+    # of the filter bind to every alternative of the list, not only to the last one
+    for other, ab in (({"kinds": [7]}, {"kinds": [7]}), ({"authors": [C.pubkey("B")]}, {"authors": ["B"]}), ({"since": C.T0 + 50}, {"since": 50}),
+                      ({"#t": ["zzz"]}, {"tags": {"t": ["zzz"]}}), ({"until": C.T0 + 5}, {"until": 5})):
+        for extra in (hexid + "00", hexid[:-1] + "0" + "f" * 10, "ee" * 40):
+            for order in ((hexid, extra), (extra, hexid)):
+                out.append(([dict({"ids": list(order)}, **other)], [dict({"ids": ["q1"]}, **ab)]))
     # unknown / odd keys, user-supplied `tags`, # keys of other lengths, non-dict filters
     odd = [{"tags": [["t", ["a"]]], "kinds": [1]}, {"#": ["a"], "kinds": [1]}, {"#tt": ["a"], "kinds": [1]}, {"# ": ["a"], "kinds": [1]},
            {"foo": 1, "kinds": [1]}, {"#t": "a", "kinds": [1]}, {"kinds": [1], "#t": [["a"]]}, {"kinds": [1], "#t": [{"a": 1}]},
@@ -362,6 +369,13 @@ def _run(prop, tier, seed, backends, limited):
     import os
     palettes = os.environ["VERIF_PALETTES"].split(",") if os.environ.get("VERIF_PALETTES") else ["plain"] if limited else (["plain", "quotes"] if tier == "quick" else ["plain", "quotes", "py", "unicode", "nul"]) if prop == "C02" else ["plain"] if prop != "C01" else (["plain", "quotes", "sql", "py", "nul", "unicode"] if tier == "thorough" else ["plain", "quotes", "py", "nul"])
     reqs = [[f] for f in filters] + multi_filter_reqs(filters, rnd, 300 if tier == "quick" else 3000)
+    if limited:
+        # one REQ asking the same conditions twice under different limits (the smaller first, and the other way round)
+        same = [f for f in filters if "limit" not in f and (f.get("kinds") or f.get("authors") or f.get("tags"))]
+        rnd_s = random.Random(seed + 3)
+        for f in rnd_s.sample(same, min(len(same), 40 if tier == "quick" else 400)):
+            for la, lb in ((1, None), (0, 3), (None, 1), (2, 1)):
+                reqs.append([dict(f, **({"limit": la} if la is not None else {})), dict(f, **({"limit": lb} if lb is not None else {}))])
     histories = HISTORIES if tier == "thorough" else HISTORIES[:3]
     scripts = build_scripts(histories, reqs)
     # thorough tier: the full grammar (all window combinations) under the first palette, the quick grammar under the others
